@@ -21,7 +21,8 @@ from .common import Check, Driver, proof_stage, rng_for
 
 PROP = "C06"
 MODULE = "PV.Props.C06"
-THEOREMS = [f"PV.Props.C06.{t}" for t in ["jal_sets_ra", "return_lands_on_ra", "call_return_roundtrip", "addRaFixed_shape", "addRa_unchanged",
+THEOREMS = ["PV.Leaf.leaf_step", "PV.Leaf.leaf_returns", "PV.Leaf.call_leaf_returns", "PV.Props.C06.leaf_call_returns_to_call_site"] + \
+           [f"PV.Props.C06.{t}" for t in ["jal_sets_ra", "return_lands_on_ra", "call_return_roundtrip", "addRaFixed_shape", "addRa_unchanged",
                                            "slots_distinct", "slots_in_stack", "lastIdx_last"]]
 
 
@@ -85,6 +86,43 @@ def expectations(code: str, prog, opts):
     return exp
 
 
+def function_regions(code: str, prog):
+    """[lo, hi) of every function body in the labelled output: from its entry label to the `j ra` that follows `<name>end:`"""
+    lines = [l.split("#")[0].split() for l in code.split("\n")]
+    labels = {t[0][:-1]: i for i, t in enumerate(lines) if len(t) == 1 and t[0].endswith(":")}
+    out = []
+    for f in prog["funcs"]:
+        lbl = f["name"].replace("_", ".")
+        if lbl in labels and lbl + "end" in labels:
+            lo, e = labels[lbl], labels[lbl + "end"]
+            hi = next((k + 1 for k in range(e, len(lines)) if lines[k][:2] == ["j", "ra"]), None)
+            if hi is not None and lo < e:
+                out.append((f["name"], lo, hi))
+    return out
+
+
+def leaf_check(drv, code, prog, stats):
+    """static part (theorem `leaf_call_returns_to_call_site`): every function body without a call must pass `checkLeaf` — it keeps
+    `ra`, and control leaves it only through `j ra`.  → failure description or None"""
+    regs = function_regions(code, prog)
+    if not regs:
+        return None
+    v = drv.call(cmd="check-leaf", text=code, regions=[[lo, hi] for _, lo, hi in regs])
+    if v.get("verdict") != "done":
+        stats["leaf_unparsed"] = stats.get("leaf_unparsed", 0) + 1
+        return None
+    for (name, lo, hi), rv in zip(regs, v["regions"]):
+        if rv["has_call"]:
+            stats["bodies_with_calls"] = stats.get("bodies_with_calls", 0) + 1
+        elif rv["leaf_ok"]:
+            stats["leaf_bodies_accepted"] = stats.get("leaf_bodies_accepted", 0) + 1
+        else:
+            stats["leaf_bodies_rejected"] = stats.get("leaf_bodies_rejected", 0) + 1
+            return (f"the body of {name} (lines {lo}–{hi - 1}) contains no call, yet it " +
+                    ("overwrites ra" if rv["writes_ra"] else "can be left other than through its `j ra`") + " (checkLeaf rejects it)")
+    return None
+
+
 WITNESS_PROGS = {}
 
 
@@ -128,6 +166,10 @@ def run(tier: str, seed: int) -> int:
                     # -- oracle: shadow call stack + reference semantics ---------------------------------------------------------------
                     exp = expectations(res["code"], prog, opts)
                     chk.count((res["code"],), nontrivial=bool(prog["funcs"]))
+                    lf = leaf_check(drv, res["code"], prog, stats)
+                    if lf:
+                        failures.append({"what": lf + f" [push_pop={pp}, tail_call={tco}]", "src": src, "prog": progen.jprogram(prog), "opts": opts, "pool": pool, "env_seed": 1,
+                                         "budget": budget, "expect": exp, "code": res["code"], "static_only": True})
                     stats[f"runs_pp{int(pp)}_tco{int(tco)}"] = stats.get(f"runs_pp{int(pp)}_tco{int(tco)}", 0) + 1
                     for es in [r.randrange(1 << 30) for _ in range(2 if tier == "quick" else 5)]:
                         v = drv.call(cmd="equiv", prog=progen.jprogram(prog), text=res["code"], seed=es, pool=pool, expect=exp, **budget)
